@@ -405,8 +405,9 @@ class FreeEnergy(InterpolatableFunction):
                         potentialEffT = np.asarray(
                             self.effectivePotential.evaluate(Fields((ode.y)), ode.t)
                         )
-                # check if step size is still okay to continue
-                if ode.step_size < 1e-16 * T0 or (
+                # check if step size is still okay to continue (the last step onto the
+                # end of the range may be a rounding-size remainder, which is no collapse)
+                if (ode.status == "running" and ode.step_size < 1e-16 * T0) or (
                     TList.size > 0 and ode.t == TList[-1]
                 ):
                     logging.warning(
